@@ -12,6 +12,41 @@ CHECKS = {
    note="SHA-256 / rs_merkle collision freedom; nothing claimed beyond the length bound.",
    technique="bounded exhaustive enumeration of all input pairs against a reference (prefix) model, executed on the real CommitTree/CommitProof code",
    design_ref="DESIGN.md §5 C08"),
+ "C06": dict(engine="logx", level="model_checking",
+   text="Explicit-state breadth-first search over the real FileSystemEventLog and DatabaseEventLog driven in lock-step through the EventLog trait: three co-resident folder logs (two accounts sharing one SQLite table / directory tree), byte-identical events within and across logs, every operation of the trait (append, records with an old time, checked/unchecked patch, rewind to every index, clear, replace-all). After every transition every log is re-opened from storage and compared with the live tree and with a vector model (leaves, root, order, timestamps, reverse iteration, diff_records), untouched logs must be unchanged and both backends must agree. All states up to the depth bound are visited; every transition is an execution of the implementation.",
+   note="State abstraction = per-log sequence of event letters; SQLite and the OS file system are trusted; depth bound 3 (quick) / 5 (thorough); folder logs only (the other log types share the same generic implementation).",
+   technique="explicit-state BFS (bounded depth) over the real implementation with a reference model oracle, both storage backends in lock-step",
+   design_ref="DESIGN.md §5 C06"),
+ "C07": dict(engine="logx", level="model_checking",
+   text="Same search as C06; the alphabet contains every kind of checkpoint for a checked patch (current head, every stale head, head of a diverged sibling, forged root), rewind to an absent commit and replace-all with a wrong checkpoint. Oracle: Success iff the checkpoint is the model head; after every request the model refuses, every log (records, order, timestamps, tree) must be exactly as before and no snapshot file may be left behind.",
+   note="As C06. The server-helper level (rewind+patch requests, rollback) is explored by the sync-world engine when built.",
+   technique="explicit-state BFS (bounded depth) over the real implementation; refusal-leaves-state-unchanged invariant checked after every refused transition",
+   design_ref="DESIGN.md §5 C07"),
+ "C01": dict(engine="hist", level="model_checking",
+   text="Explicit-state BFS over persisted account states of a real LocalAccount on both backends. Every transition copies the parent's data directory, signs in with a fresh account object (reload from storage), applies one Account operation (create/update/move/delete/archive/unarchive secret; create/rename/re-flag/describe/delete folder; empty and 1 MiB values) and compares the full decrypted view (list_folders, list_secret_ids, read_secret of every id, descriptions) with a reference model: right after the operation, after lock+unlock of every folder, after sign-out/sign-in (thorough) and after a fresh sign-in on the persisted result. Starts from a non-empty account so that row-splicing cases are reached at depth 1-2. The same histories are executed on fs and sqlite and must reach the same canonical state.",
+   note="Bounded depth (2 quick / 3 thorough) from a two-folder, two-secret initial account; kinds note/login(/file); AES-GCM default cipher (XChaCha20 reached through change_cipher in C12); caller-chosen ids at the Folder API not yet explored.",
+   technique="explicit-state BFS over real persisted account states with a reference-model oracle at every transition",
+   design_ref="DESIGN.md §5 C01"),
+ "C02": dict(engine="hist", level="model_checking",
+   text="On every transition of the C01 search (local edits on both backends): the folder reduced from the persisted event log, the folder the account serves and the vault decoded from the mirror (vault file / folder rows) are decrypted and must be equal (name, flags, description, ids, meta, values) and equal to the model; and for every commit of every folder log, FolderReducer::new_until_commit must equal an independent reference reducer over the same record prefix.",
+   note="Local histories only at this commit; merges / force merges are added by the sync-world engine.",
+   technique="explicit-state BFS over real account states; replay==served==mirror invariant and per-commit reference-reducer comparison at every transition",
+   design_ref="DESIGN.md §5 C02"),
+ "C12": dict(engine="hist", level="model_checking",
+   text="BFS over edit prefixes followed by every word of maintenance operations (compact folder/account, change folder password, account password, cipher+kdf) up to the bound, on both backends. Oracles per transition: decrypted view unchanged (names, flags, descriptions, secrets) live, after lock/unlock and after a fresh sign-in; log = 1 creation event + live secrets; old folder password no longer verifies, new key unlocks; cipher really changed; old account password neither verifies nor signs in; no stored blob (event records, vault rows) decrypts under the old derived key or is byte-identical to an old blob; raw scan of the folder's storage at rest for old ciphertext bytes.",
+   note="Blobs embedded in the append-only account event log (e.g. the folder header inside CreateFolder) are not counted as the folder's storage. WAL is checkpointed by the harness before the at-rest scan.",
+   technique="explicit-state BFS over real account states with data-preservation and old-key-dead invariants",
+   design_ref="DESIGN.md §5 C12"),
+ "C16": dict(engine="hist", level="model_checking",
+   text="Soundness half: at every transition of the C01 search (both backends) the account integrity report over all folders must contain no failure.",
+   note="Completeness half (every single-byte corruption is flagged) is not built yet at this commit.",
+   technique="explicit-state BFS over real account states; no-false-alarm invariant of the integrity report at every state",
+   design_ref="DESIGN.md §5 C16"),
+ "C20": dict(engine="hist", level="model_checking",
+   text="At every transition of the C01 search the account's incrementally maintained search index is compared with a fresh index rebuilt with add_folder over the same unlocked folders: documents (ids, folder, full meta), one document per live secret, counters (per folder, kind, tag, favourites; zero entries normalised) and query results for every label in play.",
+   note="Local histories only at this commit; merges are added by the sync-world engine.",
+   technique="explicit-state BFS over real account states; incremental==rebuilt index invariant at every transition",
+   design_ref="DESIGN.md §5 C20"),
 }
 PENDING_REASON = "check not built yet at this commit (work in progress; see DESIGN.md §5 for the planned model-checking engine)"
 
